@@ -253,18 +253,31 @@ def alt_case(rng):
          'blockDefault': None}
     # declared type: anyType-like complex with attribute k and simple content via alternatives of simple types
     types = ['xs:integer', 'xs:boolean', 'xs:date']
-    alts = [("@k='%s'" % rng.choice(['a', 'b', 'c']), rng.choice(types)) for _ in range(rng.randint(1, 3))]
+    # tests: attribute equality, and two tests that can end in a dynamic error (year overflow, invalid cast, division by
+    # zero): a test that raises does not hold, so the next alternative (or the declared type) governs
+    DTEST, NTEST = "xs:date(@d) gt xs:date('2020-06-01')", "(10 idiv xs:integer(@n)) = 5"
+    pool = ["@k='a'", "@k='b'", "@k='c'", "@k='a'", "@k='b'", DTEST, NTEST]
+    alts = [(rng.choice(pool), rng.choice(types)) for _ in range(rng.randint(1, 3))]
     el = {'name': 'e', 'ty': 0, 'tyname': 'TA', 'alts': alts}
     insts = []
     good = {'xs:integer': '12', 'xs:boolean': 'true', 'xs:date': '2020-01-01'}
     inherit = rng.random() < 0.5
-    combos = [(None, kv) for kv in ('a', 'b', 'c', 'z')]
+    combos = [(None, kv, None, None) for kv in ('a', 'b', 'c', 'z')]
     if inherit:
         # XSD 1.1 inheritable attribute on the parent: visible to the tests unless the element has its own attribute k
-        combos += [(dk, kv) for dk in ('a', 'b', 'c') for kv in (None, 'a', 'b', 'z')]
-    for dock, kv in combos:
+        combos += [(dk, kv, None, None) for dk in ('a', 'b', 'c') for kv in (None, 'a', 'b', 'z')]
+    combos += [(None, kv, d, None) for kv in (None, 'a') for d in ('2021-01-01', '2019-01-01', '99999999999999999999-01-01', 'junk', '2020-02-30')]
+    combos += [(None, kv, None, n) for kv in (None, 'b') for n in ('2', '0', '5', 'x', '')]
+
+    def holds(t, eff, d, n):
+        if t == DTEST:
+            return d == '2021-01-01'
+        if t == NTEST:
+            return n == '2'
+        return t == "@k='%s'" % eff
+    for dock, kv, d, n in combos:
         eff = kv if kv is not None else dock
-        flags = [(t == "@k='%s'" % eff) for t, _ty in alts]
+        flags = [holds(t, eff, d, n) for t, _ty in alts]
         chosen = next((ty for (t, ty), f in zip(alts, flags) if f), None)
         for content_ty in types:
             content = good[content_ty]
@@ -273,9 +286,10 @@ def alt_case(rng):
             else:
                 want = (content_ty == chosen) or (chosen == 'xs:integer' and False)
             idx = {None: 0, 'xs:integer': 1, 'xs:boolean': 2, 'xs:date': 3}
+            attrs = ''.join(' %s="%s"' % (a, v) for a, v in (('k', kv), ('d', d), ('n', n)) if v is not None)
             insts.append({'kind': 'alt', 'alts': [(f, idx[ty]) for f, (_t, ty) in zip(flags, alts)],
                           'want': idx[chosen], 'want_valid': want,
-                          'xml': '<doc%s><e%s>%s</e></doc>' % (' k="%s"' % dock if dock else '', ' k="%s"' % kv if kv is not None else '', content)})
+                          'xml': '<doc%s><e%s>%s</e></doc>' % (' k="%s"' % dock if dock else '', attrs, content)})
     return {'hier': h, 'elems': [el], 'docref': 'e', 'version': '1.1', 'instances': insts, 'alt_schema': True, 'inherit': inherit}
 
 
@@ -283,7 +297,8 @@ def schema_xsd_alt(case):
     el = case['elems'][0]
     alts = ''.join('<xs:alternative test="%s" type="%s"/>' % (t, ty.replace('xs:', 'A_')) for t, ty in el['alts'])
     deriv = ''.join('<xs:complexType name="A_%s"><xs:simpleContent><xs:extension base="xs:%s">'
-                    '<xs:attribute name="k" type="xs:string"/></xs:extension></xs:simpleContent></xs:complexType>'
+                    '<xs:attribute name="k" type="xs:string"/><xs:attribute name="d" type="xs:string"/><xs:attribute name="n" type="xs:string"/>'
+                    '</xs:extension></xs:simpleContent></xs:complexType>'
                     % (n, n) for n in ('integer', 'boolean', 'date'))
     return ('<xs:schema xmlns:xs="http://www.w3.org/2001/XMLSchema">'
             '%s<xs:element name="e" type="xs:anyType">%s</xs:element>'
